@@ -172,6 +172,10 @@ def _c11_alterations(code):
         if PY38 and code.co_posonlyargcount + d >= 0:
             yield "posonly%+d" % d, {"co_posonlyargcount": code.co_posonlyargcount + d}
     yield "swap_arg_kwonly", {"co_argcount": code.co_kwonlyargcount, "co_kwonlyargcount": code.co_argcount}
+    # one more parameter together with a name for it, so that CPython's constructor accepts the header (also on code that is not a function)
+    grown = {"co_varnames": ("extra_parameter",) + tuple(code.co_varnames), "co_nlocals": code.co_nlocals + 1}
+    yield "argcount+1_named", dict(grown, co_argcount=code.co_argcount + 1)
+    yield "kwonly+1_named", dict(grown, co_kwonlyargcount=code.co_kwonlyargcount + 1)
     if PY38:
         yield "posonly=argcount", {"co_posonlyargcount": code.co_argcount}
         yield "posonly=argcount+1", {"co_posonlyargcount": code.co_argcount + 1}
@@ -213,6 +217,60 @@ def c11_headers(tier, seed):
     return result(evals, evals, fails, samples, "%d base sources (all nested code objects) x {identity, 32 single co_flags bit flips, argument counts +-1, swapped counts, positional-only = / > argcount}" % len(C11_BASES))
 
 
+def _c11_noassert_subprocess(payload):
+    """Run the header alterations (or one recipe) in a child interpreter started with -O: guards written as `assert` do not exist there."""
+    import subprocess
+    prog = ("import json, sys; from rtc import props2; "
+            "print('C11-NOASSERT ' + json.dumps(props2._c11_noassert_child(json.loads(sys.argv[1]))))")
+    p = subprocess.run([sys.executable, "-O", "-c", prog, json.dumps(payload)], capture_output=True, text=True, timeout=600)
+    for line in p.stdout.splitlines():
+        if line.startswith("C11-NOASSERT "):
+            return json.loads(line[len("C11-NOASSERT "):])
+    raise RuntimeError("the -O child produced no result: rc=%s %s" % (p.returncode, (p.stderr or p.stdout)[-400:]))
+
+
+def _c11_noassert_child(payload):
+    if __debug__:
+        raise RuntimeError("child not started with -O")
+    if payload.get("recipe"):
+        r = payload["recipe"]
+        code = compile(dict(C11_BASES)[r["base"]], "<c11:%s>" % r["base"], "exec", dont_inherit=True)
+        for i in r["path"]:
+            code = code.co_consts[i]
+        kw = {k: (tuple(v) if isinstance(v, list) else v) for k, v in r["alter"].items()}
+        m = _c11_header_one(code_replace(code, **kw), r["label"])
+        return {"msgs": [m] if m else []}
+    out, evals = [], 0
+    for bid, src in C11_BASES:
+        top = compile(src, "<c11:%s>" % bid, "exec", dont_inherit=True)
+        for path, code in gen.walk_code(top):
+            for label, kw in _c11_alterations(code):
+                try:
+                    alt = code_replace(code, **kw)
+                except Exception:
+                    continue
+                evals += 1
+                m = _c11_header_one(alt, label)
+                if m and len(out) < 30:
+                    out.append({"base": bid, "path": list(path), "alter": {k: (list(v) if isinstance(v, tuple) else v) for k, v in kw.items()}, "label": label, "msg": m})
+    return {"evals": evals, "fails": out}
+
+
+@part("C11", "header_alterations_without_asserts")
+def c11_headers_noassert(tier, seed):
+    r = _c11_noassert_subprocess({})
+    fails = [fail("header_exact_or_raise_under_-O", "%s%s:%s (python -O)" % (f["base"], f["path"], f["label"]), ["python -O: " + f["msg"]],
+                  {"base": f["base"], "path": f["path"], "alter": f["alter"], "label": f["label"]}, ["noassert", "alter:" + f["label"].split("^")[0].split("+")[0].split("-")[0]])
+             for f in r["fails"]]
+    return result(r["evals"], r["evals"], fails, ["module:argcount+1_named (python -O)"],
+                  "the header alterations again in a child interpreter started with -O (assert statements removed): refusing a header must not depend on `assert`")
+
+
+@replayer("C11", "header_alterations_without_asserts")
+def c11_headers_noassert_replay(rec):
+    return ["python -O: " + m for m in _c11_noassert_subprocess({"recipe": rec["recipe"]})["msgs"]]
+
+
 @replayer("C11", "header_alterations")
 def c11_headers_replay(rec):
     r = rec["recipe"]
@@ -220,7 +278,7 @@ def c11_headers_replay(rec):
     code = compile(src, "<c11:%s>" % r["base"], "exec", dont_inherit=True)
     for i in r["path"]:
         code = code.co_consts[i]
-    m = _c11_header_one(code_replace(code, **r["alter"]), r["label"])
+    m = _c11_header_one(code_replace(code, **{k: (tuple(v) if isinstance(v, list) else v) for k, v in r["alter"].items()}), r["label"])
     return [m] if m else []
 
 
